@@ -81,7 +81,11 @@ impl Display for ErrorEntry<'_> {
 
 impl LocatedError for ErrorEntry<'_> {
     fn span(&self) -> Span {
-        (self.location, 1)
+        // The span covers the first character of the remaining input, if any.
+        (
+            self.location,
+            self.fragment.chars().next().map_or(0, char::len_utf8),
+        )
     }
 }
 
